@@ -429,6 +429,126 @@ def _linear(chk):
     chk.canary("canary: perturbed C must not be symplectic", canary)
 
 
+_REPLAY_TRI = """
+import warnings
+warnings.filterwarnings("ignore")
+from hiten import System
+bad = []
+for pair in PAIRS:
+    s = System.from_bodies(*pair)
+    for k in POINTS:
+        try:
+            print(pair, 'L%d' % k, 'mu=%.3e' % s.mu, s.get_libration_point(k).dynamics.linear_modes)
+        except Exception as e:
+            bad.append((pair, k)); print(pair, 'L%d' % k, 'mu=%.3e' % s.mu, 'RAISES', type(e).__name__, str(e)[:120])
+print('CONFIRMED' if bad else 'NOT-CONFIRMED')
+"""
+
+
+_REPLAY_CN2 = """
+import warnings
+warnings.filterwarnings("ignore")
+import numpy as np
+from hiten import System
+from hiten.algorithms.dynamics.rtbp import _jacobian_crtbp
+bad = False
+for pair in (("earth", "moon"), ("sun", "jupiter")):
+    s = System.from_bodies(*pair)
+    p = s.get_libration_point(POINT)
+    x = float(p.position[0])
+    c2_field = -float(_jacobian_crtbp(x, 0.0, 0.0, s.mu)[5, 2])      # Z'' = -c2 Z at a collinear point
+    c2_lib = float(p.dynamics.cn(2))
+    print(pair, "c2 reported", c2_lib, " c2 of the field's Jacobian", c2_field)
+    bad = bad or abs(c2_lib - c2_field) > 1e-9 * abs(c2_field)
+print("CONFIRMED" if bad else "NOT-CONFIRMED")
+"""
+
+
+def _cn2_and_catalogue_modes(chk):
+    import hiten.algorithms.dynamics.rtbp as rtbp
+    g = sp.Symbol("gamma", positive=True)
+    mu = sp.Symbol("mu", positive=True)
+
+    for name, (s1, s2) in REGION.items():
+        def th(name=name, s1=s1, s2=s2):
+            with exact() as alg:
+                st = _stub(name, X(mu), X(g))
+                w, origin = type(st).won.fget(st)
+                xg = val(origin) - int(w) * g
+                A = (1 - mu) / (s1 * (xg + mu)) ** 3 + mu / (s2 * (xg - 1 + mu)) ** 3
+                for n in (2,):
+                    cn = val(type(st)._compute_cn(st, n))
+                    d = sp.cancel(sp.together(cn - A))
+                    if d != 0:
+                        raise Refuted(f"{name}: _compute_cn(2) is not (1-mu)/r1^3 + mu/r2^3 at x(gamma)",
+                                      "difference: " + sp.sstr(sp.factor(d))[:400],
+                                      inputs={"mu": 0.0121505856, "point": name},
+                                      replay=_REPLAY_CN2.replace("POINT", name[1]))
+        chk.obl(f"{name}: c2 = _compute_cn(2) == (1-mu)/r1^3 + mu/r2^3 at x(gamma) for every mu, gamma (so the c2 of the "
+                f"normal-form obligations is the one of the field's Jacobian)", "K1 identity",
+                [SL + f":_{name}DynamicsService._compute_cn"], "B3 sympy normal form", th)
+
+    def th_tri_charpoly():
+        with exact() as alg:
+            for sg in (1, -1):
+                Jf = sp.Matrix(vals(rtbp._jacobian_crtbp(X(sp.Rational(1, 2) - mu), X(sg * sp.sqrt(3) / 2), X(0), X(mu))))
+                s_ = sp.Symbol("s")
+                cp = sp.expand(sp.simplify(Jf.charpoly(s_).as_expr()))
+                want = sp.expand((s_ ** 4 + s_ ** 2 + sp.Rational(27, 4) * mu * (1 - mu)) * (s_ ** 2 + 1))
+                if sp.simplify(cp - want) != 0:
+                    raise Refuted("triangular characteristic polynomial", sp.sstr(sp.simplify(cp - want))[:400])
+    chk.obl("characteristic polynomial of _jacobian_crtbp at L4 / L5 == (s^4 + s^2 + 27/4 mu(1-mu))(s^2 + 1) for every mu",
+            "K1 identity", [RT + ":_jacobian_crtbp"], "B3 sympy normal form", th_tri_charpoly)
+
+    def th_catalogue_modes():
+        import mpmath as mp
+        from hiten.utils.constants import Constants
+        mp.mp.dps = 40
+        pairs = [(p, s) for p, d in Constants.orbital_distances.items() for s in d]
+        bad, badpairs, badpts = [], [], set()
+        n = 0
+        for p, s in pairs:
+            m1, m2 = float(Constants.get_mass(p)), float(Constants.get_mass(s))
+            muv = m2 / (m1 + m2)
+            for name in ("L1", "L2", "L3", "L4", "L5"):
+                n += 1
+                st = _stub(name, muv)
+                try:
+                    got = type(st)._compute_linear_modes(st)
+                except Exception as e:
+                    if name in ("L4", "L5") and 27 * muv * (1 - muv) >= 1:
+                        continue        # beyond Routh's value there are no three real frequencies to report
+                    bad.append(f"{p}-{s} {name} (mu={muv:.3e}): raises {type(e).__name__}: {str(e)[:80]}")
+                    badpairs.append((p, s)); badpts.add(int(name[1]))
+                    continue
+                if name in ("L4", "L5"):
+                    if 27 * muv * (1 - muv) >= 1:
+                        continue
+                    r = mp.sqrt(1 - 27 * mp.mpf(muv) * (1 - mp.mpf(muv)))
+                    want = (mp.sqrt((1 + r) / 2), mp.sqrt((1 - r) / 2), mp.mpf(1))
+                    got_c = tuple(abs(x) for x in got)
+                else:
+                    c2v = mp.mpf(float(type(st)._compute_cn(st, 2)))
+                    r = mp.sqrt(9 * c2v ** 2 - 8 * c2v)
+                    want = (mp.sqrt((c2v - 2 + r) / 2), mp.sqrt((2 - c2v + r) / 2), mp.sqrt(c2v))
+                    got_c = got
+                err = max(abs(mp.mpf(float(a)) - b) / b for a, b in zip(got_c, want))
+                if err > 1e-7:
+                    bad.append(f"{p}-{s} {name} (mu={muv:.3e}): reported {tuple(float(x) for x in got)}, analytic "
+                               f"{tuple(float(x) for x in want)}")
+                    badpairs.append((p, s)); badpts.add(int(name[1]))
+        if bad:
+            rp = _REPLAY_TRI.replace("PAIRS", repr(tuple(dict.fromkeys(badpairs))[:4])).replace("POINTS", repr(tuple(sorted(badpts))))
+            raise Refuted("catalogue pairs whose linear modes are missing or wrong: " + "; ".join(bad[:3]) +
+                          (f" (+{len(bad) - 3} more)" if len(bad) > 3 else ""), "\n".join(bad), replay=rp,
+                          inputs={"cases": bad})
+        return f"{n} (pair, point) combinations"
+    chk.obl("all catalogue pairs x L1..L5: _compute_linear_modes returns the analytic roots of the characteristic polynomial "
+            "(collinear: with the pair's own c2; triangular: below Routh's value)", "K5 closed (exhaustive over the catalogue)",
+            [SL + ":_CollinearDynamicsService._compute_linear_modes", SL + ":_TriangularDynamicsService._compute_linear_modes"],
+            "B4 evaluation (numpy.linalg.eig trusted)", th_catalogue_modes)
+
+
 def run(chk):
     loader.install()
     chk.under_contract(
@@ -450,3 +570,4 @@ def run(chk):
     _quintic(chk)
     _brackets(chk)
     _linear(chk)
+    _cn2_and_catalogue_modes(chk)
